@@ -940,7 +940,18 @@ def canon_image(base, var):
 
 def canon_exec(inp, ru):
     tc = SM.to_tables(inp)
-    tc.canonicalise(remove_unreferenced=ru)
+    if ru:
+        # remove_unreferenced=True is the documented default: spelled out, omitted, or None - the three
+        # forms rotate over the inputs
+        form = (len(inp["edges"]) + len(inp["sites"]) + len(inp["populations"])) % 3
+        if form == 0:
+            tc.canonicalise(remove_unreferenced=True)
+        elif form == 1:
+            tc.canonicalise()
+        else:
+            tc.canonicalise(remove_unreferenced=None)
+    else:
+        tc.canonicalise(remove_unreferenced=ru)
     return tc, SM.from_tables(tc)
 
 
